@@ -504,3 +504,38 @@ def simplify(op):
     for kind in ("do", "shift", "noise"):
         if isinstance(a.get(kind), list) and a[kind]:
             yield dict(op, args=dict(a, **{kind: "omit"}))
+
+
+MODELLED = {"sempler.lganm.LGANM.__init__": "lganm.new", "sempler.lganm.LGANM.sample": "lganm.sample",
+            "sempler.normal_distribution.NormalDistribution.sample": "nd.sample", "sempler.anm.ANM.sample": "anm.sample",
+            "sempler.generators.dag_avg_deg": "gen.dag_avg_deg", "sempler.generators.dag_full": "gen.dag_full",
+            "sempler.generators.intervention_targets": "gen.intervention_targets",
+            "sempler.utils.split_data": "utils.split_data", "sempler.utils.add_edges": "utils.add_edges",
+            "sempler.utils.remove_edges": "utils.remove_edges"}
+
+
+def discover(S):
+    """Public callables of sempler that take a random_state, by introspection: anything the op
+    catalogue does not model is reported in the evidence (never as a violation)."""
+    import inspect
+    import importlib
+    found = []
+    for mname in ("lganm", "anm", "normal_distribution", "generators", "utils", "noise", "functions", "semi"):
+        try:
+            mod = importlib.import_module("sempler." + mname)
+        except Exception:
+            continue
+        for name, obj in sorted(vars(mod).items()):
+            if name.startswith("_") or getattr(obj, "__module__", None) != mod.__name__:
+                continue
+            if inspect.isfunction(obj):
+                if "random_state" in inspect.signature(obj).parameters:
+                    found.append("%s.%s" % (mod.__name__, name))
+            elif inspect.isclass(obj):
+                for mn, meth in sorted(vars(obj).items()):
+                    if inspect.isfunction(meth) and (not mn.startswith("_") or mn == "__init__"):
+                        if "random_state" in inspect.signature(meth).parameters:
+                            found.append("%s.%s.%s" % (mod.__name__, name, mn))
+    return {"discovered": found, "modelled": [f for f in found if f in MODELLED],
+            "unmodelled": [f for f in found if f not in MODELLED],
+            "note": "sempler.semi.DRFNet.sample is decided under C19 (needs the simulated R peer)"}
